@@ -1,6 +1,7 @@
 """C13 (partial): primitive writers/readers agree on width and endianness in every back end; composite
 serialisers and deserialisers agree on field order and prefix kind; per-strategy encode and decode
 dispatch tables are inverse."""
+from vlib import fixtures
 import re
 
 from rules import pair
@@ -17,6 +18,7 @@ NAME_PAIRS = [("serialize", "deserialize"), ("serialize_with_version", "deserial
 
 def run(ctx):
     fx = ctx.facts("default")
+    fixtures.run(ctx, ['pair'])
     # 1. primitives: every DataOutput::write_K against every DataInput::read_K
     W, Rd = {}, {}
     for fid in fx.fn_ids():
